@@ -21,6 +21,8 @@ d0 = sh([PY, demo], env=env, cwd=src, timeout=900)
 a = sh(['git', '-C', '/repo', 'apply', patch])
 if a.returncode:
     print('REJECT: patch does not apply', a.stderr[:300]); sys.exit(2)
+ev = os.path.join(V, 'evidence', pid + '.json')
+evidence_keep = open(ev).read() if os.path.exists(ev) else None      # evidence describes runs against /repo itself
 try:
     t = sh([PY, '-m', 'pytest', '-q', '-p', 'no:cacheprovider', '--timeout=900'], cwd='/repo', env=env, timeout=1800)
     d1 = sh([PY, demo], env=env, cwd=src, timeout=900)
@@ -28,6 +30,8 @@ try:
     chk = sh(['python3', 'check.py', pid, '--tier', 'quick'], cwd=V, timeout=3600)
 finally:
     sh(['git', '-C', '/repo', 'checkout', '--', '.'])
+    if evidence_keep is not None:
+        open(ev, 'w').write(evidence_keep)
 suite = t.stdout.strip().splitlines()[-1] if t.stdout.strip() else ''
 ok = (d0.returncode == 0 and d1.returncode == 1 and ' passed' in suite and 'failed' not in suite and 'error' not in suite)
 print(f'demo_without={d0.returncode} demo_with={d1.returncode} suite="{suite}" confirmed={ok}')
